@@ -20,6 +20,7 @@ def keys_scalar(o):
 
 def run_case(c):
     from dataclass_wizard import asdict
+    rt.fresh_typing_caches()
     reg = rt.Reg()
     out = {}
     try:
